@@ -19,6 +19,7 @@ def pipeline(prop, tier, fam):
     binary = fam.get("binary")
     vlib.TRACE_ENV.clear()
     vlib.TRACE_ENV.update(fam.get("trace_env", {}))
+    vlib.TRACE_ENV["TIER"] = tier
 
     states = transitions = 0
     model_info = []
